@@ -444,6 +444,37 @@ theorem version_build (hT : h.Topo) (hu : TagsUnique h) {pl : Plug π β} {g : G
     · rw [h5]; exact .refl _
     · exact h5
 
+/-- a version known to the repository-wide `bn_map` is a build tag of an eligible commit of some branch that has a
+reported build of that branch at or below it (or the "not built" number of an untagged head) -/
+theorem lookup_some_tagged (hT : h.Topo) (hu : TagsUnique h) {pl : Plug π β} {g : Graph β}
+    {mt : Option Nat} (hg : rgraphNW h pl mt = .ok g) {bn : BN} {e : Nat × Nat} (hl : g.bnMapAll.lookup bn = some e) :
+    ∃ k bk rbk c cm, (branchesOf h)[k]? = some bk ∧ g.all[k]? = some rbk ∧ SpecBuild h ((branchesOf h).take k) bk c ∧
+      h.commits[c]? = some cm ∧ (bn ∈ cm.tags ∨ bn = fakeNB) ∧
+      ∃ bi ∈ rbk.rbuilds, ∃ ei, BuildAt g.rcs bi ei ∧ Anc h ei c := by
+  have hbnall := rgraph_bn hT hu hg
+  obtain ⟨hlenall, _⟩ := rgraph_sem hT hg
+  have hnd : ∀ r ∈ g.all, (bkeys r.bnMap).Nodup := by
+    intro r hr
+    obtain ⟨k, hk⟩ := List.mem_iff_getElem?.mp hr
+    have hklt : k < (branchesOf h).length := by
+      rw [← hlenall]; exact (List.getElem?_eq_some_iff.mp hk).1
+    exact (hbnall k _ r (List.getElem?_eq_getElem hklt) hk).2
+  have hl' : (Graph.bnMapAll.go 0 g.all []).lookup bn = some e := hl
+  rcases go_lookup_some bn g.all 0 [] e hnd hl' with h1 | ⟨k, rbk, h2, h3, h4⟩
+  · simp at h1
+  · have hklt : k < (branchesOf h).length := by
+      rw [← hlenall]; exact (List.getElem?_eq_some_iff.mp h2).1
+    obtain ⟨c', cm', hs', hc', hb', hgood⟩ :=
+      (hbnall k _ rbk (List.getElem?_eq_getElem hklt) h2).1.snd bn e.2 h4
+    obtain ⟨bi, hbi, _, ei, hbe, hcase⟩ := hgood
+    refine ⟨k, _, rbk, c', cm', List.getElem?_eq_getElem hklt, h2, hs', hc', ?_, bi, hbi, ei, hbe, ?_⟩
+    · rcases mem_buildNums hb' with t1 | ⟨f1, _, _⟩
+      · exact Or.inl t1
+      · exact Or.inr f1
+    · rcases hcase with h5 | ⟨_, h5, _, _⟩
+      · rw [h5]; exact .refl _
+      · exact h5
+
 end
 
 end Ghist
